@@ -130,14 +130,21 @@ pub fn run_normalize(cat: &Rc<Cat>, evs: &[AEv]) -> String {
 
 pub fn gen_norm(rng: &mut Rng, idx: usize) -> Case {
     let _ = idx;
-    let specs = gen_catalog_specs_twins(rng, 3);
+    // MANY features (1 case in 60): more than a hundred features whose events interleave freely, so that dozens of
+    // finished features sit buffered behind the one at the head of the output and are flushed by a single event
+    let many = idx > 0 && rng.chance(1, 60);
+    let specs = if many {
+        let mut v = vec![];
+        while v.len() < 90 { v = gen_catalog_specs(rng, 150); }
+        v
+    } else { gen_catalog_specs_twins(rng, 3) };
     let cat = Rc::new(Cat::new(&specs));
-    let sticky = *rng.pick(&[0usize, 0, 3, 6, 8]);
-    let long = idx > 0 && rng.chance(1, 25);
+    let sticky = if many { 0 } else { *rng.pick(&[0usize, 0, 3, 6, 8]) };
+    let long = idx > 0 && !many && rng.chance(1, 25);
     if long { LONG_ATTEMPT.with(|l| l.set(rng.range(257, 420))); }
     let mut evs = gen_contract_stream(rng, &cat, sticky);
     LONG_ATTEMPT.with(|l| l.set(0));
-    let breaking = !long && rng.chance(1, 12);
+    let breaking = !long && !many && rng.chance(1, 12);
     if breaking && evs.len() > 3 {
         // break the contract: drop, duplicate or move one event
         match rng.below(3) {
